@@ -267,6 +267,8 @@ pub fn c01_eval(h: &[Op], only_depths: Option<&[i64]>, with_ext: bool, dist: Opt
                         fs.push(f);
                     }
                 }
+                // the instance already is not what a fresh twin would be: whatever a further reorg shows is derivative
+                return fs;
             }
         } else { fs.extend(fatal_finding("c01:twin", &b)); return fs; }
     }
@@ -390,6 +392,7 @@ pub fn c03_eval(h: &[Op], seed: u64, dist: Option<&mut Dist>) -> Vec<Finding> {
             break;
         }
         if !alive { fs.extend(fatal_finding("c03", &runs[0])); break; }
+        if runs[0].tracker.desynced { alive = false; break; }
         if closes_block(op) && runs[0].tracker.at_boundary() && Tracker::effective(op, &runs[0].log.last().unwrap().1) {
             k += 1;
             let coin = rng.chance(1, 3);
@@ -771,6 +774,7 @@ pub fn c06_eval(h: &[Op], dist: Option<&mut Dist>) -> Vec<Finding> {
     for (pos, op) in h.iter().enumerate() {
         let st = run.step(op).status.clone();
         if st.is_fatal() { fs.extend(fatal_finding("c06", &run)); break; }
+        if run.tracker.desynced { break; }
         let closes = matches!(op, Op::Finalise { .. } | Op::Mine { .. } | Op::Initialise { .. } | Op::Reorg(_) | Op::Clear | Op::Reopen);
         if closes && run.tracker.at_boundary() && Tracker::effective(op, &run.log[pos].1) {
             for mut f in coherence(&mut run) {
@@ -795,10 +799,13 @@ pub fn c10_eval(h: &[Op], seed: u64, dist: Option<&mut Dist>) -> Vec<Finding> {
     let mut rng = Rng::new(seed ^ 0xc10c10);
     let mut r1 = Run::new();
     let mut nonread_status: Vec<String> = Vec::new();
+    // a rejected call that changed the store is C05's subject; the comparison stops in front of it
+    let mut desync_at: Option<usize> = None;
     'outer: for op in h {
         let st = r1.step(op).status.clone();
         nonread_status.push(st.class());
         if st.is_fatal() { fs.extend(fatal_finding("c10", &r1)); break; }
+        if r1.tracker.desynced { desync_at = Some(r1.log.iter().filter(|x| !x.0.is_read()).count()); break; }
         let boundary = r1.tracker.at_boundary();
         let k = if boundary { 3 } else { 1 };
         let reads = gen_reads(&mut rng, &r1.universe, r1.tracker.height(), 6);
@@ -825,12 +832,12 @@ pub fn c10_eval(h: &[Op], seed: u64, dist: Option<&mut Dist>) -> Vec<Finding> {
             }
         }
     }
-    if !r1.tracker.fatal {
+    if !r1.tracker.fatal && desync_at.is_none() {
         let mut r2 = Run::new();
         if !r2.run(h) { fs.extend(fatal_finding("c10:plain", &r2)); }
         else {
             let s2 = r2.statuses();
-            if let Some(i) = (0..h.len()).find(|i| nonread_status.get(*i) != s2.get(*i)) {
+            if let Some(i) = (0..h.len().min(nonread_status.len())).find(|i| nonread_status.get(*i) != s2.get(*i)) {
                 fs.push(finding(format!("c10:status:{}", h[i].kind()), format!("with reads interleaved {} is answered {:?}, without them {:?}", h[i].kind(), nonread_status.get(i), s2.get(i)), json!({"op": h[i], "op_index_without_reads": i})));
             } else {
                 let mut u = r1.universe.clone();
@@ -998,7 +1005,7 @@ fn worker(prop: &str, shard: u64, out: &Path, seed: u64, thorough: bool) -> Resu
     let t0 = Instant::now();
     let soft = if thorough { Duration::from_secs(480) } else { Duration::from_secs(50) };
     let hard = if thorough { Duration::from_secs(600) } else { Duration::from_secs(80) };
-    let iters: u64 = match (prop, thorough) { ("c01", false) => 8, ("c01", true) => 90, ("c03", false) => 6, ("c03", true) => 70, ("c10", false) => 30, (_, false) => 40, (_, true) => 400 };
+    let iters: u64 = match (prop, thorough) { ("c01", false) => 8, ("c01", true) => 90, ("c03", false) => 8, ("c03", true) => 90, ("c10", false) => 50, ("c10", true) => 600, ("c06", false) => 70, ("c06", true) => 800, (_, false) => 45, (_, true) => 500 };
     let mut rng = Rng::new(seed ^ prop_salt(prop) ^ (shard.wrapping_mul(0x9E37_79B9)));
     let mut col = Collector { failures: BTreeMap::new(), evaluations: 0 };
     let mut dist = Dist::default();
